@@ -137,7 +137,9 @@ def cmd_check(sid, props, tier):
                         pass
     finally:
         drop(wt)
-    meta.setdefault("checks", {}).setdefault(tier, {}).update(results)
+    seed = os.environ.get("VERIF_SEED", "1")
+    key = tier if seed == "1" else "%s@seed%s" % (tier, seed)
+    meta.setdefault("checks", {}).setdefault(key, {}).update(results)
     save_meta(sid, meta)
 
 
